@@ -157,7 +157,7 @@ class Builder:
 
     def common(self):
         tr = self.tr
-        out = [tr.tm.emit(), tr.emit_globals(), tr.emit_opaque()]
+        out = [tr.tm.emit(), tr.emit_helpers(), tr.emit_globals(), tr.emit_opaque()]
         pre = re.sub(r'(?m)^#define (?:INT_TO_REAL|REAL_TO_INT)\b.*$', '', self.u.prelude)
         out.append('#define IMPLIES(a, b) (!(a) || (b))\n')
         out.append(pre)
